@@ -10,7 +10,7 @@ import (
 
 func init() {
 	Register(&Prop{
-		ID: "C18", Bubble: true, ArmLockProbes: true, Run: runC18, QuickRuns: 3000,
+		ID: "C18", Bubble: true, ArmLockProbes: true, Run: runC18, QuickRuns: 6000,
 		ExpectedProbes: []string{"reset", "concurrent_measurement_checked"},
 		Rule: "one run = one measurement primitive (Minimum, Single, ExponentialAverage, SimpleExponentialMovingAverage, SimpleMovingVariance, WindowlessMovingPercentile, ImmutableSampleWindow) with seeded constructor parameters and a history of up to 200 Add / Get / Reset / Update operations over finite positive samples (backend rtts, powers of two, near-equal values); " +
 			"oracle: reference fold per primitive (min since reset, last value, arithmetic mean during warm-up then a value inside the hull of the samples, variance >= 0, window = exact summary independent of order, receiver unchanged), Reset == fresh instance (twin run on the remaining history), flag true whenever the stored value changed; " +
